@@ -36,7 +36,7 @@ Pairs == {p \in AllPairs : p[1] <= p[2] /\ (p \in OrderedPairs \/ <<p[2], p[1]>>
 MiscSeq == [i \in DOMAIN SpaceNames |-> <<"space", SpaceNames[i], "", "">>]
            \o [k \in DOMAIN MethodNames |-> <<"cone", MethodNames[k], "", "">>]
            \o << <<"neg", "white", "", "">>, <<"neg", "whitepair", "", "">>, <<"neg", "space", "", "">>,
-                 <<"neg", "method", "", "">>, <<"neg", "digit", "", "">> >>
+                 <<"neg", "method", "", "">>, <<"neg", "digit", "", "">>, <<"neg", "okm1", "", "">> >>
 (* the cases are dealt over NG groups by index, so that the workers get equal shares *)
 NG == 12
 Root == <<"root", "", "", "">>
@@ -90,9 +90,18 @@ NegOK(n) ==
             /\ MatBitsAbs(<<FxDec(1, 2, <<413, 6900>>)>>, <<a[1]>>) >= Need("space.hard=ref", "f64")
             /\ MatBitsAbs(<<FxDec(1, 2, <<413, 7900>>)>>, <<a[1]>>) < Need("space.hard=ref", "f64")
 
+(* the publication class OkM1 of Adapt!Need: the cube of M2^-1 (1, 0, 0) equals M1 white only to the published
+   precision of M1, for Ottosson's M1 and for the CSS Color 4 recalculation alike (bits printed for the record) *)
+OkM1OK ==
+  LET k == [okm2inv |-> Inv3T(OkM2)]
+      a == OkCubeBits(k, FxMatVec(OkM1, WhiteD65), <<FxOne, FxZero, FxZero>>)
+      b == OkCubeBits(k, FxMatVec(OkM1Css, WhiteD65), <<FxOne, FxZero, FxZero>>)
+  IN PrintT(<<"okm1 bits", a, b>>) /\ a >= 10 /\ b >= 10 /\ a < 30 /\ b < 30
+
 CaseOK(c) == CASE c[1] = "space" -> SpaceOK(c[2])
                [] c[1] = "pair" -> PairOK(c[2], c[3], c[4])
                [] c[1] = "cone" -> ConeOK(c[2])
+               [] c[1] = "neg" /\ c[2] = "okm1" -> OkM1OK
                [] c[1] = "neg" -> NegOK(c[2])
                [] OTHER -> TRUE                      \* root and group states carry no claim
 
